@@ -20,7 +20,7 @@ RULE = ('Formulas of the fragment the explainer supports (no since/until; arithm
         'is asked to explain several disjoint intervals; each variable occurs once, the formula is monotone in it, and the 8 assignments '
         '"all non-reported samples of a variable at +1000 / -1000" contain the most adversarial one (sufficiency decided exactly); 8-16 traces of '
         '3-9 samples per parsed formula, a failure is confirmed on a freshly parsed specification. Lane satisfied: rho(phi,w,0) > 0 => nothing is reported. Non-trivial = E does not '
-        'cover every sample of every variable, the formula has >= 1 temporal operator and n >= 2; distinct = distinct (formula, trace) digests.')
+        'cover every sample of every variable, the formula has >= 1 temporal operator and n >= 2 (two cases in three draw a sampling period of 1 ms .. 2 s and a default unit, bounds then written in ms; some of these objects are first evaluated and explained under a shorter period and re-configured with set_sampling_period()); distinct = distinct (formula, trace) digests.')
 
 ASSUMPTIONS = [
     '"violated at time 0" is read as robustness < 0, the criterion explain() itself uses; traces with rho(phi,w,0) == 0 are discarded',
@@ -184,7 +184,8 @@ def cases(draw, tier, satisfied=False):
     if not satisfied:
         for _ in range(10):
             alts.append({v: [draw(ALT_VALUES) for _ in range(n)] for v in vs})
-    return {'formula': f, 'vars': vs, 'trace': tr, 'alts': alts, 'want_satisfied': satisfied, 'timing': draw(TIMINGS)}
+    return {'formula': f, 'vars': vs, 'trace': tr, 'alts': alts, 'want_satisfied': satisfied, 'timing': draw(TIMINGS),
+            'first_period_ms': draw(st.sampled_from([None, None, 50, 100, 250, 500, 1000]))}
 
 
 def explained_positions(expl, names, n):
@@ -242,9 +243,22 @@ def check(case, cache=None):
         if spec is None:
             if timing:
                 pv, pu = (timing['period_ms'], 'ms') if timing['period_ms'] % 1000 else (timing['period_ms'] // 1000, 's')
-                spec = build('dt_off', text, feed, unit=timing['unit'], period=(pv, pu, 0.1))
+                first = case.get('first_period_ms')
+                if first and cache is None and timing['period_ms'] % first == 0 and first != timing['period_ms']:
+                    # the object is first used (evaluate + explain) under a shorter sampling period, then re-configured
+                    spec = build('dt_off', text, feed, unit=timing['unit'], period=(first, 'ms', 0.1), dedicated=True)
+                    per_unit = {'s': 1000.0, 'ms': 1.0}[timing['unit']]
+                    spec.evaluate(dt_dataset(w, [i * first / per_unit for i in range(n)]))
+                    try:
+                        spec.explain()
+                    except Exception:  # noqa
+                        pass
+                    spec.set_sampling_period(pv, pu, 0.1)
+                    labels = labels + ['reconfigured-after-explain']
+                else:
+                    spec = build('dt_off', text, feed, unit=timing['unit'], period=(pv, pu, 0.1), dedicated=True)
             else:
-                spec = build('dt_off', text, feed)
+                spec = build('dt_off', text, feed, dedicated=True)
             if cache is not None:
                 cache[text] = spec
         tcol = None
@@ -259,6 +273,8 @@ def check(case, cache=None):
     desc = 'spec: %s\ntrace: %s   (rho at 0: %g)' % (text, w, r0)
     if timing:
         desc = 'sampling period %d ms, default unit %s (bounds in the reference: duration / period)\n' % (timing['period_ms'], timing['unit']) + desc
+        if 'reconfigured-after-explain' in labels:
+            desc = 'the object was evaluated and explained under a sampling period of %d ms first, then set_sampling_period()\n' % case['first_period_ms'] + desc
     try:
         spec.explain()
     except Exception as e:  # noqa
